@@ -14,7 +14,14 @@ pub fn mk_record(hash: [u8; 32], height: u64, blk_index: u64, data_offset: u64) 
     BlockIndexRecord { block_hash: sha256d::Hash::from_byte_array(hash), blk_index: blk_index as _, data_offset: data_offset as _, version: 1, height: height as _, status: 29, tx_count: 1 }
 }
 pub fn mk_index(max_height: u64, block_index: HashMap<u64, BlockIndexRecord>, mhb: HashMap<u64, u64>) -> ChainIndex {
-    ChainIndex { max_height, block_index, max_height_blk_index: mhb }
+    unsafe {
+        let mut x = core::mem::MaybeUninit::<ChainIndex>::zeroed();
+        let p = x.as_mut_ptr();
+        core::ptr::write(core::ptr::addr_of_mut!((*p).max_height), max_height);
+        core::ptr::write(core::ptr::addr_of_mut!((*p).block_index), block_index);
+        core::ptr::write(core::ptr::addr_of_mut!((*p).max_height_blk_index), mhb);
+        x.assume_init()
+    }
 }
 pub fn new_map<K: PartialEq, V>() -> HashMap<K, V> { HashMap::new() }
 
